@@ -12,7 +12,7 @@ NASA = 'pmutt.empirical.nasa:Nasa'
 TRUSTED = ["'{: 2.8E}'.format(a) is 15 characters and float() of it is within 5e-9 relative of a (1e-99 <= |a| < 1e100 or a == 0)",
            "'%.1f' % T is the correctly rounded decimal with one fractional digit; '%d' % n is the decimal text of n",
            'str.find / split / replace / strip / slicing as re-implemented on structured strings (pvc/sstr.py)']
-NAME_EXCL = ' \n\t\r\x0b\x0c'
+NAME_EXCL = ' \n\t\r\x0b\x0c!'
 OPT = dict(concrete_number_lengths=True)
 
 
@@ -30,13 +30,13 @@ def count(digits):
     return Int(10 ** (digits - 1), 10 ** digits - 1, assume=True)
 
 
-def species(name_len=4, elements=((1, 1),), notes=None, flags=()):
+def species(name_len=4, elements=((1, 1),), notes=None, flags=(), coeff_lo=-1e3):
     """elements: ((symbol length, count digits), ...)"""
     # elements dict with symbolic-word keys is built through a stub of dict items
     el = DictOfTokens([(sym(sl), count(cd)) for sl, cd in elements])
     return Fields(NASA, name=nm(name_len, flags), phase=Const('G'), elements=el,
                   notes=Const(notes), T_low=Real(100., 999.), T_high=Real(1000., 9999.), T_mid=Real(100., 999.),
-                  a_low=RealVec(7, -1e3, 1e3), a_high=RealVec(7, -1e3, 1e3))
+                  a_low=RealVec(7, coeff_lo, 1e3), a_high=RealVec(7, coeff_lo, 1e3))
 
 
 class DictOfTokens(Spec):
@@ -96,7 +96,9 @@ for name_len, els in SHAPES_Q:
     lab = 'name=%d,elements=%s' % (name_len, '+'.join('%dc%dd' % e for e in els))
     n_el = len(els)
     contract(TH + '_write_line1', P, label=lab, options=OPT,
-             args=dict(nasa_specie=species(name_len, els), write_date=Const(False)), requires=TREQ,
+             args=dict(nasa_specie=species(name_len, els), write_date=Const(False)),
+             requires=TREQ + ['all(a != b for i, a in enumerate(nasa_specie.elements.keys()) '
+                              'for j, b in enumerate(nasa_specie.elements.keys()) if i < j)'],
              ensures=[('81-characters-with-newline', 'len(result) == 81 and result[80] == "\\n"'),
                       ('record-number-in-column-80', 'result[79] == "1"'),
                       ('phase-in-column-45', 'result[44] == nasa_specie.phase'),
@@ -112,3 +114,55 @@ for name_len, els in SHAPES_Q:
                       ('classified-as-record-1', 'pm.io.thermdat._read_line_num(result) == 1 and '
                                                  'not pm.io.thermdat._is_temperature_header(result)')],
              cross_check=False)
+
+# ---- whole files: write_thermdat then read_thermdat ------------------------------------------------
+def file_of(**kw):
+    return WrittenFile(TH + 'write_thermdat', {'nasa_species': 'species'}, write_date=False, **kw)
+
+
+def same_species(k):
+    t = ("result[K].name == species[K].name and result[K].phase == species[K].phase and "
+         "spec.thermdat.same_composition(result[K].elements, species[K].elements) and "
+         "abs(result[K].T_low - species[K].T_low) <= 0.05 and abs(result[K].T_high - species[K].T_high) <= 0.05 and "
+         "abs(result[K].T_mid - species[K].T_mid) <= 0.05 and "
+         "all(abs(result[K].a_low[j] - species[K].a_low[j]) <= 5e-9 * abs(species[K].a_low[j]) for j in range(7)) and "
+         "all(abs(result[K].a_high[j] - species[K].a_high[j]) <= 5e-9 * abs(species[K].a_high[j]) for j in range(7))")
+    return t.replace('K', str(k))
+
+
+FLAGS = ('THERMO', 'END')
+for n_sp, name_lens in ((1, (6,)), (2, (3, 8))):
+    for supp in (None, '!comment line\n'):
+        sp_list = ListOf([species(L, ((1, 1), (2, 2)), flags=FLAGS, coeff_lo=0.) for L in name_lens])
+        treq = [r.replace('nasa_specie', 'species[%d]' % k) for k in range(n_sp) for r in TREQ]
+        distinct = ['list(species[%d].elements.keys())[0] != list(species[%d].elements.keys())[1]' % (k, k) for k in range(n_sp)]
+        # sign columns: all 2^14 sign patterns of a record are covered by the
+        # per-record contracts above; whole files are explored for
+        # non-negative coefficients (one path per file instead of 16384)
+        distinct += ['all(v >= 0 for v in species[%d].a_low) and all(v >= 0 for v in species[%d].a_high)' % (k, k)
+                     for k in range(n_sp)]
+        contract(TH + 'read_thermdat', P, label='roundtrip[%d species,supp_txt=%s]' % (n_sp, 'yes' if supp else 'no'),
+                 options=OPT, ghost=dict(species=sp_list),
+                 args=dict(filename=file_of(supp_txt=supp) if supp else file_of()),
+                 requires=treq + distinct,
+                 ensures=[('same-number-of-species-in-order', 'len(result) == %d' % n_sp)] +
+                         [('species-%d-identical' % k, same_species(k)) for k in range(n_sp)],
+                 cross_check=False)
+contract(TH + 'read_thermdat', P, label='format=dict', options=OPT,
+         ghost=dict(species=ListOf([species(4, ((1, 1),), flags=('THERMO', 'END'), coeff_lo=0.)])),
+         args=dict(filename=file_of(), format=Const('dict')),
+         requires=[r.replace('nasa_specie', 'species[0]') for r in TREQ] +
+                  ['all(v >= 0 for v in species[0].a_low) and all(v >= 0 for v in species[0].a_high)'],
+         ensures=['len(result) == 1 and result[species[0].name].name == species[0].name'], cross_check=False)
+contract(TH + 'read_thermdat', P, label='format=tuple', options=OPT,
+         ghost=dict(species=ListOf([species(4, ((1, 1),), flags=('THERMO', 'END'), coeff_lo=0.)])),
+         args=dict(filename=file_of(), format=Const('tuple')),
+         requires=[r.replace('nasa_specie', 'species[0]') for r in TREQ] +
+                  ['all(v >= 0 for v in species[0].a_low) and all(v >= 0 for v in species[0].a_high)'],
+         ensures=['len(result) == 1 and result[0].name == species[0].name'], cross_check=False)
+contract(TH + 'read_thermdat', P, label='format=unknown', options=OPT,
+         ghost=dict(species=ListOf([species(4, ((1, 1),), flags=('THERMO', 'END'), coeff_lo=0.)])),
+         args=dict(filename=file_of(), format=Const('set')),
+         requires=[r.replace('nasa_specie', 'species[0]') for r in TREQ] +
+                  ['all(v >= 0 for v in species[0].a_low) and all(v >= 0 for v in species[0].a_high)'],
+         raises={'ValueError': 'True'}, cross_check=False)
